@@ -8,7 +8,7 @@ import json, os, re, subprocess, concurrent.futures as cf
 import vlib, C11_gen as G
 
 ENTRIES = ["info", "image", "view", "conv", "scan"]
-DEVS = ["name", "file", "stream"]
+DEVS = ["name", "file", "stream", "sstream"]
 CONV_DST = {"bmp": "rgba8", "tga": "rgba8", "pnm": "rgb8"}
 
 def mkop(fmt, entry, dev, dst, data, st=(0, 0, 0, 0), view=(0, 0)):
@@ -180,7 +180,7 @@ def ext_evidence(ctx, binary):
     for g, o in zip(gens, out):
         if not o.startswith("hex "): ctx.notes.append("ext: writer failed for %s: %s" % (g, o[:80])); continue
         _, f, d, w, h, _ = g.split(); b = bytes.fromhex(o[4:])
-        devs = ["name", "stream"] if f == "tif" else DEVS
+        devs = ["name", "stream"] if f == "tif" else ["name", "file", "stream"]
         muts = [("valid", b)] * len(devs) + G.truncations(b, r, False)[:: (1 if th else 3)] + G.random_mutations(b, r, 60 if th else 16) + \
                G.tail_corruptions(b, min(len(b) - 1, 24), r, 4 if th else 1)
         for k, (m, x) in enumerate(muts):
@@ -203,7 +203,7 @@ def ext_evidence(ctx, binary):
 
 ASSUME = [
     "every single allocation above 64 KiB fails with std::bad_alloc in harness and model alike (declared sizes beyond that are explored only up to the allocation)",
-    "std::ifstream stands for std::istream; file name and FILE* share file_stream_device",
+    "std::istream is exercised as std::ifstream and std::istringstream (they differ in seeking beyond the end); file name and FILE* share file_stream_device",
     "sub-rectangle settings are explored with non-negative dimensions and offsets within 2 KiB of the row buffer (ASan red zone)",
     "a model answer `nondet:` (outcome depends on uninitialised bytes) would not be compared, only judged; none arises on the current tree (istream_device checks short reads since cdb7c21)",
 ]
